@@ -674,6 +674,44 @@ theorem pluck_keeps_a_stale_sort :
     ([Model.SelectPipe.Tr.sort [⟨0, false⟩], .aggregate [] [1]].foldl pushK {}).order = none :=
   stale_sort_counterexample
 
+/-- `all` of gen_query.rs: the filters of one clause joined into ONE condition, `e1 AND (e2 AND (.. AND en))` -/
+def allAnd : List Model.Rel.Expr → Option Model.Rel.Expr
+  | [] => none
+  | [e] => some e
+  | e :: rest => match allAnd rest with
+    | some c => some (.bin .and e c)
+    | none => some e
+
+/-- a row passes the joined condition iff it passes every filter (three-valued: NULL does not pass), for any number of
+filters - the WHERE / HAVING clause built by `filter_of_conditions` means the filters applied one after the other -/
+theorem joined_condition_means_all_filters (es : List Model.Rel.Expr) (c : Model.Rel.Expr) (r : Model.Rel.Row)
+    (h : allAnd es = some c) : Lemmas.RelBlock.holds c r = Lemmas.RelBlock.allHold es r := by
+  induction es generalizing c with
+  | nil => simp [allAnd] at h
+  | cons e rest ih =>
+    cases hr : allAnd rest with
+    | none =>
+      have : rest = [] := by
+        cases rest with
+        | nil => rfl
+        | cons x xs => simp only [allAnd] at hr; split at hr <;> simp at hr
+      subst this
+      simp only [allAnd, Option.some.injEq] at h
+      subst h
+      simp [Lemmas.RelBlock.allHold]
+    | some c' =>
+      have hc : c = .bin .and e c' := by
+        cases rest with
+        | nil => simp [allAnd] at hr
+        | cons x xs => simp only [allAnd, hr, Option.some.injEq] at h; exact h.symm
+      subst hc
+      have := ih c' hr
+      simp only [Lemmas.RelBlock.allHold, List.all_cons] at this ⊢
+      rw [← this]
+      simp only [Lemmas.RelBlock.holds, Model.Rel.Expr.eval, Model.Rel.evalBin]
+      cases (e.eval r).truth <;> cases (c'.eval r).truth <;> simp [Model.Rel.and3, Model.Rel.ofTruth, Model.Rel.Value.truth] <;>
+        (rename_i a b; cases a <;> cases b <;> simp [Model.Rel.and3, Model.Rel.ofTruth, Model.Rel.Value.truth])
+
 /-- the kind of clause a transform of the reference semantics contributes -/
 def skel : Model.Rel.Tr → Model.SelectPipe.Tr
   | .filter _ => .filter 0
